@@ -632,6 +632,15 @@ func (v *V) execTypeSwitch(fr *Frame, s *ast.TypeSwitchStmt, st *State) []Outcom
 
 // hasType: dynamic type test of an interface value.
 func (v *V) hasType(val Val, t types.Type) string {
+	if _, isIface := val.T.Underlying().(*types.Interface); !isIface && val.T != nil {
+		// a value of concrete static type (spec expressions over an implementation)
+		if types.Identical(val.T, t) {
+			return "true"
+		}
+		if _, ok := t.Underlying().(*types.Interface); !ok {
+			return "false"
+		}
+	}
 	if _, ok := t.Underlying().(*types.Interface); ok {
 		// interface-to-interface assertion: abstract predicate per target interface
 		fn := "implements_" + typeKey(t)
@@ -779,6 +788,9 @@ func (v *V) addressOf(e *Env, x ast.Expr) Val {
 		r := v.alloc(e, "lit")
 		pv := Val{T: types.NewPointer(sv.T), S: r}
 		v.storeThrough(e, pv, sv, x.Pos())
+		if _, named := sv.T.(*types.Named); named {
+			e.st.define(eq(fmt.Sprintf("(dyn_type %s)", r), v.typeTag(pv.T)))
+		}
 		return pv
 	case *ast.Ident:
 		obj, ok := e.info.ObjectOf(t).(*types.Var)
